@@ -1,6 +1,6 @@
 """C08 - every disassembled instruction line yields exactly one stream instruction."""
 from vlib import jasm_io
-from vlib.objsrc import listing_for, source_tag, sources
+from vlib.objsrc import ALL_LAYOUTS, LAYOUT_ASSUMPTION, layout_tag, listing_for, source_tag, sources
 from vlib.refnorm import classify_line, expected_mnemonics
 from vlib.runner import Eval
 
@@ -11,15 +11,15 @@ ID = "C08"
 LEVEL = "exploration"
 RULE = (
     "Inputs are what objdump 2.40 itself prints (-D -b binary -M att in x86-64 / i386 / i8086 mode for byte blobs; -d -M att for generated ELF64/ELF32 "
-    "relocatables with 1-5 sections and symbols); the code bytes are Hypothesis-drawn mixtures of raw bytes, PRNG blobs (seed and length drawn) and a table "
-    "of encodings reaching prefixes, > 7-byte instructions, zero runs, (bad), rip-relative comments, branch hints, x87/AVX/AVX-512, 16-bit addressing. Oracle: an "
+    "relocatables with 1-5 sections and symbols), in the layouts objdump itself offers: default (7 bytes per line + continuation lines), -w and --insn-width=8/11/15 (8-15 bytes on one line, no continuation lines), --no-show-raw-insn and -w --no-show-raw-insn (no byte column); the code bytes are Hypothesis-drawn mixtures of raw bytes, PRNG blobs (seed and length drawn) and a table "
+    "of encodings reaching prefixes, > 7-byte instructions, zero runs, (bad), rip-relative comments, branch hints, x87/AVX/AVX-512, `{vex}` pseudo prefixes, 16-bit addressing. Oracle: an "
     "independent line classifier; the sequence of (address, first token of the instruction text) over instruction lines, in file order, must equal the "
     "(address, mnemonic) sequence of the stream (all_instructions_string) and of parse_file_lines, modulo the two documented rewrites ('data16 ' dropped, '(bad)' as "
     "'bad'); nothing else may contribute; no exception. Non-trivial: the listing shows >= 3 of {continuation line, prefix, (bad), operand-less instruction, "
     "# comment, <symbol> annotation, '...' elision, several sections}; distinct by hash of the listing text."
 )
-ASSUMPTIONS = ["objdump (binutils 2.40) in this sandbox is the input source", "x86-64 and i386 objects and raw blobs; i8086 blobs reported as a separate class"]
-FLOORS = {"has-continuation": 0.2, "has-bad": 0.2, "has-comment": 0.1, "has-annotation": 0.2, "has-no-operand": 0.3, "has-elision": 0.05}
+ASSUMPTIONS = ["objdump (binutils 2.40) in this sandbox is the input source", "x86-64 and i386 objects and raw blobs; i8086 blobs reported as a separate class", LAYOUT_ASSUMPTION]
+FLOORS = {"has-continuation": 0.2, "has-bad": 0.2, "has-comment": 0.1, "has-annotation": 0.2, "has-no-operand": 0.3, "has-elision": 0.05, "layout=no-raw": 0.08, "layout=wide": 0.04, "layout=insn-width-15": 0.04}
 
 
 def budget(tier):
@@ -27,7 +27,7 @@ def budget(tier):
 
 
 def strategy(tier):
-    return sources()
+    return sources(layouts=ALL_LAYOUTS)
 
 
 def features(text, lines):
@@ -124,7 +124,7 @@ def _evaluate(case):
     ev = Eval()
     ev.subcases = 0
     rc, text, _ = listing_for(case)
-    ev.tags = [source_tag(case)]
+    ev.tags = [source_tag(case), layout_tag(case)]
     if rc != 0:
         ev.tags.append("objdump-failed")
         return ev
